@@ -118,7 +118,7 @@ inline Goldilocks::Element Goldilocks::fromString(const std::string &in1, int ra
 inline void Goldilocks::fromString(Element &result, const std::string &in1, int radix)
 {
     mpz_class aux(in1, radix);
-    aux = (aux + (uint64_t)GOLDILOCKS_PRIME) % (uint64_t)GOLDILOCKS_PRIME;
+    mpz_fdiv_r_ui(aux.get_mpz_t(), aux.get_mpz_t(), (uint64_t)GOLDILOCKS_PRIME); // floor remainder: always in [0, p)
 #if USE_MONTGOMERY == 1
     result.fe = Goldilocks::to_montgomery(aux.get_ui());
 #else
@@ -135,7 +135,8 @@ inline Goldilocks::Element Goldilocks::fromScalar(const mpz_class &scalar)
 
 inline void Goldilocks::fromScalar(Element &result, const mpz_class &scalar)
 {
-    mpz_class aux = (scalar + (uint64_t)GOLDILOCKS_PRIME) % (uint64_t)GOLDILOCKS_PRIME;
+    mpz_class aux;
+    mpz_fdiv_r_ui(aux.get_mpz_t(), scalar.get_mpz_t(), (uint64_t)GOLDILOCKS_PRIME); // floor remainder: always in [0, p)
 #if USE_MONTGOMERY == 1
     result.fe = Goldilocks::to_montgomery(aux.get_ui());
 #else
